@@ -90,8 +90,8 @@ pub fn oracle(case: &Case) -> Outcome {
                 }
             }
             let cut_off = if k < starts.len() { starts[k] } else { buf.len() };
-            let want: Vec<String> = rt[..k].iter().map(|e| format!("{:?}", e)).collect();
-            let got: Vec<String> = rs.iter().map(|e| format!("{:?}", e)).collect();
+            let want: Vec<String> = rt[..k].iter().map(obs::render).collect();
+            let got: Vec<String> = rs.iter().map(obs::render).collect();
             if want != got {
                 return Outcome::violation(format!(
                     "allowed={:?} call {}: {} elements returned, the all-allowing parser returns {} of which the first {} precede the first filtered version (offset {}); first difference at {:?}",
